@@ -18,7 +18,7 @@ theorem invR_step {fx : Fixes} {cfg : Cfg} {sym lw : Nat} (st st' : St) (hi : In
   cases h with
   | push style gs rest hs hl hfit => exact ⟨hn, hw⟩
   | nl style gs rest hs hl heq hnl => exact ⟨hn, hw⟩
-  | split0 style gs rest hs hl hge hnf hw0 hns =>
+  | split0 style gs rest hs hl hge hnf hw0 hns hnfo =>
     refine ⟨?_, fun _ => lw_ge_two_of_not_limit hl⟩
     intro r hr
     simp only [List.mem_append, List.mem_singleton] at hr
